@@ -189,6 +189,23 @@ Theorem C17_end_to_end : forall (ka kb : nat -> key4) (ca cb : bool) (sa : st) (
 Proof. exact end_to_end. Qed.
 Print Assumptions C17_end_to_end.
 
+(* ... and with A's close after the messages (on_close = the codec's close handler): B delivers the messages, then
+   answers the close with exactly one close frame (masked iff B is a client), fires one close event, and delivers
+   nothing of whatever follows the close frame *)
+Theorem C17_end_to_end_close : forall (ka kb : nat -> key4) (ca cb : bool) (sa : st) (nb : nat)
+    (ms : list msg) (junk : list N) (chunks : list (list N)),
+  csent sa = false -> Forall (fun m => wf_len (snd m)) ms ->
+  exists sa' frames sa'' cf,
+    send_all (keyf ka) ca sa ms = ROk (sa', frames) /\
+    on_close (keyf ka) ca sa' = ROk (sa'', mkO [] [cf] (if crecv sa then 1 else 0)%nat) /\
+    csent sa'' = true /\
+    (concat chunks = concat frames ++ cf ++ junk ->
+     recv_all (keyf kb) cb (clean nb) chunks =
+     ROk (mkS [] (mkP [] None (bump cb nb)) true true,
+          mkO ms [rfc_frame true 8 (okey kb cb nb) []] 1)).
+Proof. exact end_to_end_close. Qed.
+Print Assumptions C17_end_to_end_close.
+
 (* ---- non-vacuity *)
 Definition ex_k4 (n : nat) : key4 := (N.of_nat n + 1, 2, 3, 4).
 
